@@ -109,6 +109,12 @@ def rule_pure_observers(ctx, only_timestamps=False):
         for (adt, f) in (sync_ts + SYNC_FLAGS if kind == 'sync' else UNSYNC_TS + UNSYNC_FLAGS):
             if ('write', adt, f) in tr:
                 bad.append(('state-write', '%s.%s' % (adt.split('::')[-1], f), ('write', adt, f)))
+        # F2b any other state of the cache object itself: an observer may write nothing of it but what an expiry removal writes (the store, the
+        # queues, the two counters) -- a timer, a latch or a cached value written by an observer is state a later operation branches on
+        for e in tr:
+            if e[0] == 'write' and e[1] in ('unsync::cache::Cache', 'sync::base_cache::Inner', 'sync::base_cache::BaseCache', 'sync::cache::Cache') and \
+                    e[2] not in ('cache', 'deques', 'entry_count', 'weighted_size') and not only_timestamps:
+                bad.append(('state-write', '%s.%s' % (e[1].split('::')[-1], e[2]), e))
         # F3 recency
         for role, fns in (('move-to-back', R.move), ('push-back', R.push)):
             hit = reach & fns
@@ -252,12 +258,20 @@ def rule_auth_sketch_record(ctx):
                         r.violate(c, 'sketch-increment-source', 'hash', 'sketch increment in %s is not fed by a received ReadOp' % c,
                                   where=ctx.where(c, t.get('line')))
         # ReadOp construction sites
+        lookup_ = named(ctx, 'sync.get_lookup')
+
+        def only_via_lookup(fn, depth=0):
+            # a recording helper (`record_hit` / `record_miss`) that nothing but the lookup calls
+            if fn == lookup_:
+                return True
+            cs = {(prog.bodies[c].root if prog.bodies[c].kind == 'closure' and prog.bodies[c].root else c) for c in prog.callers().get(fn, ())} - {fn}
+            return bool(cs) and depth < 3 and all(only_via_lookup(c, depth + 1) for c in cs)
         for variant in ('Hit', 'Miss'):
             e = ('construct', 'common::concurrent::ReadOp', variant)
             holders = eff.who_has(e)
             for h in holders:
                 root = prog.bodies[h].root or h
-                ok = root == named(ctx, 'sync.get_lookup')
+                ok = root == lookup_ or only_via_lookup(root)
                 r.instance(readop=variant, constructed_in=h, allowed=ok)
                 if not ok:
                     r.violate(h, 'readop-construct', variant, 'ReadOp::%s constructed outside get' % variant, where=ctx.where(h))
@@ -296,7 +310,19 @@ def rule_pair_readop_once(ctx):
     targets.append(('unsync::cache::Cache::get', 'increment'))
     for nid, what in targets:
         ctx.body(nid)
-        sx = ctx.symex(inline_depth=3, inline_pred=lambda n, b, d: False if (n in R.sketch_write or 'evict' in n or n.endswith('record_hit')) else None)
+        def _pred(n, b, d, _what=what):
+            if n in R.sketch_write or 'evict' in n:
+                return False
+            # helpers that cannot lead to a recording and relink the deques are irrelevant here (the recency bookkeeping of a hit)
+            reach_ = ctx.prog.reachable_from([n]) | {n}
+            if _what == 'send':
+                leads = any(R.ext_calls.get(m_, set()) & set(CHAN_SEND) for m_ in reach_)
+            else:
+                leads = bool(reach_ & R.sketch_increment)
+            if not leads and (reach_ & (R.move | R.unlink | R.push)):
+                return False
+            return None
+        sx = ctx.symex(inline_depth=3, inline_pred=_pred)
         paths = [p for p in sx.run(nid) if not p.diverged]
         for p in paths:
             if what == 'send':
@@ -360,6 +386,22 @@ def rule_const_masks(ctx):
     nib = [c for c in consts if cval(c['b']) == 15 or cval(c['a']) == 15]
     # (`x % 16` on an unsigned value is the same mask)
     nib += [s['rv'] for bb in bodies for _, _, s in bb.stmts() if s['st'] == 'assign' and s['rv']['rv'] == 'binop' and s['rv']['op'] == 'Rem' and cval(s['rv']['b']) == 16]
+    # (`(slot & (0xF << offset)) >> offset` isolates the same four bits: the mask is built like the saturation mask, the result shifted down)
+    for bb in bodies:
+        shl15 = {s_['pl']['l'] for _, _, s_ in bb.stmts() if s_['st'] == 'assign' and s_['rv']['rv'] == 'binop' and s_['rv']['op'].startswith('Shl') and cval(s_['rv']['a']) == 15
+                 and not s_['pl'].get('p')}
+        has_shr = any(s_['st'] == 'assign' and s_['rv']['rv'] == 'binop' and s_['rv']['op'].startswith('Shr') for _, _, s_ in bb.stmts())
+        if shl15 and has_shr:
+            def _loc(o_):
+                return (o_.get('pl') or {}).get('l') if o_.get('k') in ('copy', 'move') and not (o_.get('pl') or {}).get('p') else None
+            # (the mask may pass through the overflow-check tuple: follow one `use` of a field of it)
+            derived = set(shl15)
+            for _ in range(3):
+                for _, _, s_ in bb.stmts():
+                    if s_['st'] == 'assign' and s_['rv']['rv'] == 'use' and (s_['rv']['op'].get('pl') or {}).get('l') in derived and not s_['pl'].get('p'):
+                        derived.add(s_['pl']['l'])
+            nib += [c for c in [s_['rv'] for _, _, s_ in bb.stmts() if s_['st'] == 'assign' and s_['rv']['rv'] == 'binop' and s_['rv']['op'] == 'BitAnd']
+                    if _loc(c['a']) in derived or _loc(c['b']) in derived]
     r.instance(function=b.nid, nibble_mask_sites=len(nib))
     if not nib:
         r.violate(b.nid, 'nibble-mask', '0xF', 'frequency() does not mask the counter with 0xF', where=ctx.where(b.nid))
@@ -546,8 +588,18 @@ def rule_sketch_structure(ctx):
     # --- depth 4
     for fn in ('frequency', 'increment'):
         b = ctx.body(SK + '::' + fn)
-        ranges = [s['rv'] for bb in [b] + [prog.bodies[c] for c in prog.closures_of.get(b.nid, [])] for _, _, s in bb.stmts() if s['st'] == 'assign' and s['rv']['rv'] == 'aggr' and s['rv'].get('kind') == 'adt' and norm(s['rv']['adt']) == 'std::ops::Range']
-        ok = any(rg['ops'][0].get('val') == 0 and rg['ops'][1].get('val') == 4 for rg in ranges)
+        # (the loop may live in a private helper of the module that the function calls on every path: `increment_counters`)
+        grp = [b] + [prog.bodies[c] for c in prog.closures_of.get(b.nid, [])] + [prog.bodies[c] for c in sorted(prog.callees(b.nid)) if c in prog.bodies and
+                                                                                 prog.bodies[c].kind != 'closure' and c.lstrip('<').startswith('common::frequency_sketch::') and
+                                                                                 not c.endswith(('::reset', '::index_of', '::increment_at', '::ensure_capacity'))]
+        ranges = [s['rv'] for bb in grp for _, _, s in bb.stmts() if s['st'] == 'assign' and s['rv']['rv'] == 'aggr' and s['rv'].get('kind') == 'adt' and norm(s['rv']['adt']) == 'std::ops::Range']
+
+        def _cv(o_):
+            if o_.get('val') is not None:
+                return o_.get('val')
+            c_ = prog.consts.get(norm(str(o_.get('item') or ''))) if o_.get('k') == 'const' else None
+            return c_.get('val') if c_ else None
+        ok = any(_cv(rg['ops'][0]) == 0 and _cv(rg['ops'][1]) == 4 for rg in ranges)
         how = 'literal range 0..4' if ok else None
         if not ok:
             # the four (table index, counter index) pairs are computed by a helper of the module (its loop is the literal range 0..4) and
@@ -574,7 +626,7 @@ def rule_sketch_structure(ctx):
         if not ok:
             r.violate(b.nid, 'sketch-depth', '0..4', '%s does not loop over the 4 counters of a key' % b.nid, where=ctx.where(b.nid))
         # all four counters are visited on every call: the depth loop is left only when its range is exhausted (no break / early return)
-        for bb in [b] + [prog.bodies[c] for c in prog.closures_of.get(b.nid, [])]:
+        for bb in grp:
             succ, _pred, _seen = bb.cfg()
             for h, body, back in bb.loops():
                 srcs = sorted({x for x in body for s_ in succ.get(x, []) if s_ not in body and not bb.blocks[s_].get('cleanup')
